@@ -50,6 +50,16 @@ CHECKS["C14"] = ("SlottedCC.tla MinCost for astsize/depth = least fixpoint of ma
 NOTES_EXTRA = {"C14": CC_NOTE + " Constant-folding analysis (modify hook) is exercised by the rewrite recorder (rw_record) once built; until then only the two slot-independent lattices are covered."}
 CHECKS["C04"] = ("MC_Fire.tla (SlottedCC + Terms.Inst) + TLC: per rule, every set of balanced alias unions as state with Represented(l.sigma) decided by the closure; replay: build pre-state, apply_rewrites once, require r.sigma represented and equal",
          "every planted instance whose left side the specification says is represented (also only up to equality) fires, on all explored states within the documented scope", "5 C04")
+RW_NOTE = ("TLC checks the model-level facts (rule validity over GF(p), Runner.tla invariants and liveness) exhaustively within the stated constants; the Rust "
+           "code is bound by TLC validating recorded runs of the real rewriting machinery event by event (TraceRewrite.tla). Trusted: TLC, the recorder's "
+           "representative terms built from enodes(), the independent fingerprint.")
+CHECKS["C03"] = ("Model.tla (GF(p) semantics, Terms.Inst) + MC_Model: every pool rule valid for all admissible substitutions/environments; TraceRewrite.tla validates recorded rewriting runs: every class member evaluated under ALL environments",
+         "with model-valid rules every e-node of every class and the start term denote one function of the class slots, independent of other slots, on all recorded runs (both substitution methods, conditional rules, binder-moving rules)", "5 C03")
+CHECKS["C15"] = ("Runner.tla/RunnerOps.tla model-checked (bounded termination, truthful limit reasons, liveness); TraceRewrite.tla validates every recorded iteration/stop/report of Runner::run, run_eqsat and apply_rewrites against the specified stop decision using an independent fingerprint",
+         "apply_rewrites returns false only when nothing observable changed; every stop reason and report field is the one the control-loop specification allows; saturation re-checked", "5 C15")
+NOTES_EXTRA["C03"] = RW_NOTE
+NOTES_EXTRA["C15"] = RW_NOTE
+NOTES_EXTRA["C14"] = CC_NOTE + " Constant folding with its modify hook: recorded rewriting runs of language A judged by TraceRewrite.tla (DumpOK)."
 PENDING = {}  # filled below for every property without a check yet
 
 man = {
